@@ -379,9 +379,13 @@ def _run_program(prog, problems, s, sched_ref, f, con, twin, W, H, kind, auto, t
             frame_ok = len(tail) == 1 and tail[0].startswith("job ")
         if transient:
             frame_ok = got[len(rows):] == []
+        leftovers = [r for r in got if r.strip() and not r.lstrip().startswith("M")] if transient else []
         if has_stop:
             # a thread stopped the display mid-way: later prints follow the (then permanent) frame, the simple 'printed rows then frame' layout does not apply
             printed_ok = frame_ok = True
+        if has_stop and leftovers and not exposed:
+            # whatever the order of stop / start / redraw was: a transient display leaves nothing of its frames behind once it is finally stopped
+            problems.append(("screen", "C11/screen/transient-remnant", "after the final stop of a transient display the screen still shows %r (schedule %r)" % (leftovers, s.trace[:6])))
         if not (printed_ok and frame_ok):
             sig = "C11/screen/print-vs-redraw-race" if exposed else "C11/screen/final"
             problems.append(("screen", sig, "final screen %r, expected printed rows %r then the last frame %r (schedule %r)" % (got, rows, final, s.trace[:6])))
@@ -405,6 +409,12 @@ LIVE_PROGRAMS = [
 ]
 
 
+RESTART_PROGRAMS = [
+    # one thread stops the display while another starts it again and draws
+    {"display": "live", "transient": True, "frame0": ["fa"], "threads": [[["stop"]], [["start"], ["refresh"], ["update", ["fb", "fc"], True]]]},
+    {"display": "progress", "transient": True, "threads": [[["stop"]], [["start"], ["advance", 1], ["refresh"]]]},
+    {"display": "live", "transient": True, "auto": True, "frame0": ["fa", "fb"], "threads": [[["stop"], ["start"]], [["print", 1, 1], ["refresh"]]]},
+]
 AUTO_PROGRAMS = [
     {"display": "progress", "auto": True, "transient": True, "threads": [[["print", 1, 1]], [["advance", 2], ["stop"]]]},
     {"display": "live", "auto": True, "frame0": ["a", "b"], "threads": [[["print", 2, 1], ["update", ["x"], False]], [["stop"]]]},
@@ -583,6 +593,7 @@ class Generated(Part):
 
 PARTS = [Exhaustive("plain-exhaustive", PLAIN_PROGRAMS, "programs without a display (print/log/capture/record)"), Exhaustive("live-exhaustive", LIVE_PROGRAMS, "programs with a Live or Progress display"),
          Exhaustive("auto-exhaustive", AUTO_PROGRAMS, "programs whose display runs its own auto-refresh thread (scheduled like any other thread; transient or not; threads that stop it)"),
+         Exhaustive("restart-exhaustive", RESTART_PROGRAMS, "programs in which one thread stops a transient display while another starts it again and redraws"),
          Exhaustive("big-exhaustive", BIG_PROGRAMS, "programs in which one print yields more than 2048 segments"),
          Exhaustive("redirect-exhaustive", REDIRECT_PROGRAMS, "programs in which threads write lines to sys.stdout while a display redirects it to the console"),
          Exhaustive("shared-state-exhaustive", DEEP_PROGRAMS, "programs printing (coloured) text with the library's process-wide caches emptied or at capacity, preempted also inside cells.py, _lru_cache.py, palette.py and color.py"),
